@@ -268,6 +268,12 @@ func shellWorkflows(rng *rand.Rand, n int) []*spec.Spec {
 			s.Conns = append(s.Conns, &spec.Conn{From: prev, To: pn + ".in"})
 			prev = pn + ".out"
 		}
+		if rng.Intn(3) == 0 {
+			// a Go-function step (its recorded command is the task protocol's command line, which the script can run as well)
+			s.Procs = append(s.Procs, &spec.Proc{Name: "gostep", Kind: spec.KGoFunc, Cmd: spec.BuildCmd("gostep", []spec.PortDecl{{Name: "in"}}, []spec.PortDecl{{Name: "out"}}, nil, nil, nil)})
+			s.Conns = append(s.Conns, &spec.Conn{From: prev, To: "gostep.in"})
+			prev = "gostep.out"
+		}
 		switch rng.Intn(3) {
 		case 0: // diamond with a shared ancestor
 			s.Procs = append(s.Procs, &spec.Proc{Name: "left", Kind: spec.KCmd, Cmd: "rev {i:in} > {o:out}"}, &spec.Proc{Name: "right", Kind: spec.KCmd, Cmd: "sort {i:in} > {o:out}"},
@@ -363,12 +369,13 @@ func c20(args []string) {
 		kind   string
 		s      *spec.Spec
 		resume bool
+		killed bool // first run killed right after an intermediate output was renamed into place, then cleanup and resume
 		tree   *mon.AuditJSON
 		cfg    Cfg
 	}
 	var jobs []*job
 	for i, s := range shellWorkflows(rng, c.Pick(24, 250)) {
-		jobs = append(jobs, &job{kind: "real", s: s, resume: i%3 == 2, cfg: Cfg{Buf: []int{1, 3, 128}[i%3], Procs: 4}})
+		jobs = append(jobs, &job{kind: "real", s: s, resume: i%3 == 2, killed: i%3 == 1, cfg: Cfg{Buf: []int{1, 3, 128}[i%3], Procs: 4}})
 	}
 	for i := 0; i < c.Pick(200, 4000); i++ {
 		n := 1 + rng.Intn(12)
@@ -395,7 +402,13 @@ func c20(args []string) {
 					return
 				}
 			}
-			res := execSpec(c, root, j.s, j.cfg, nil, j.resume, 1)
+			if j.killed {
+				kc := j.cfg
+				kc.Crash = "fin.renamed|step_0|1"
+				execSpec(c, root, j.s, kc, nil, false, 0)
+				cleanLeftovers(root)
+			}
+			res := execSpec(c, root, j.s, j.cfg, nil, j.resume || j.killed, 1)
 			if res.Exit != 0 || !res.Returned {
 				if res.Hang != "" && !strings.HasPrefix(res.Hang, "deadlock") {
 					c.Inconclusive(res.Hang)
